@@ -147,7 +147,9 @@ def main():
                 nat = native(a.probe, ob.probe, [vals])[0]
                 enc = encoded_eval(ctx, pr, vals)
                 res["native_replay"] = {"native": nat, "encoding": enc}
-                if nat != enc:
+                if str(v.claim).startswith("no_panic") and nat != "PANIC":
+                    verdict, why = "unreplayed", f"panic edge reported by the encoding but the native code returned {nat} at the model: spec/model artefact"
+                elif nat != enc:
                     verdict, why = "unreplayed", f"native result {nat} differs from the encoding's {enc} at the counterexample: translator/model error"
             except Exception as e:
                 verdict, why = "unreplayed", f"native replay failed: {e!r}"
@@ -163,17 +165,24 @@ def main():
     if verdict == "held" and pr and a.probe and si == 0:
         try:
             n = 150 if a.tier == "quick" else 1500
-            tuples = gen_tuples(ctx, pr, a.seed, n)
-            nat = native(a.probe, ob.probe, tuples)
+            want = 40 if a.tier == "quick" else 400
             bad = []
             used = 0
-            for t, nv in zip(tuples, nat):
-                ev = encoded_eval(ctx, pr, list(t))
-                if ev is None:
-                    continue
-                used += 1
-                if ev != nv:
-                    bad.append({"input": t, "native": nv, "encoding": ev})
+            tuples, nat = [], []
+            for batch in range(12):
+                tb = gen_tuples(ctx, pr, a.seed + 7919 * batch, n)
+                nb = native(a.probe, ob.probe, tb)
+                if not tuples:
+                    tuples, nat = tb, nb
+                for t, nv in zip(tb, nb):
+                    ev = encoded_eval(ctx, pr, list(t))
+                    if ev is None:
+                        continue
+                    used += 1
+                    if ev != nv:
+                        bad.append({"input": t, "native": nv, "encoding": ev})
+                if used >= want or bad:
+                    break
             res["validation"] = {"tuples": used, "mismatches": len(bad), "sample": [list(tuples[0]), nat[0]]}
             if bad:
                 verdict, why = "error", f"translator validation failed: encoding disagrees with native code on {len(bad)} of {used} tuples, e.g. {bad[0]}"
@@ -183,7 +192,7 @@ def main():
             verdict, why = "error", f"translator validation could not run: {e!r}"
     res.update(verdict=verdict, queries=ctx.queries, solver_s=round(ctx.solver_s, 2), vacuity_sat=ctx.vacuity_sat,
                functions=", ".join(sorted(_short(n) for n in ctx.ex.encoded)), claims=ctx.claims_done,
-               cuts=[n for n, _ in ctx.cuts], panic_edges=len(ctx.ex.panics), known_finding_lines=ctx.kf_lines,
+               cuts=[c[0] for c in ctx.cuts], panic_edges=len(ctx.ex.panics), known_finding_lines=ctx.kf_lines,
                wall_s=round(time.time() - t0, 2), log=ctx.log[-60:], stats=ctx.ex.stats)
     if why:
         res["why"] = why
